@@ -200,7 +200,7 @@ def run(ctx):
     #    Fill equals the iterated Store at small scope (MC_LRUBig); recordings of the real cache at capacities around
     #    powers of two up to 70 000 are validated against Trace_LRUBig (a fill of 10^5 Stores is one event)
     mcb = ctx.tlc("MC_LRUBig", "MC_LRUBig", workers=4)
-    big_caps = [513, 1025, 4099, 8200, 16390, 32771, 65540] + ([] if quick else [70000, 98310])
+    big_caps = [513, 1025, 4099, 8200, 16390, 32771] + ([] if quick else [65540, 70000, 98310])
     bp = ctx.path("lrubig.ndjson")
     ctx.run_vh(vh, ["lru-big", "-caps", ",".join(str(c) for c in big_caps), "-out", bp])
     bres = ctx.tlc("Trace_LRUBig", "Trace_LRUBig", workers=1, env={"TRACE": bp}, expect_ok=False, timeout=1800, heap="8g")
